@@ -230,15 +230,15 @@ pub fn fuzz_body(data: &[u8]) -> Result<(), Failure> {
 // Harness side: the campaign of the thorough tier
 
 fn fuzz_binary() -> PathBuf {
-    PathBuf::from(format!("{VERIF_DIR}/target/fuzz-gen/x86_64-unknown-linux-gnu/release/generated"))
+    PathBuf::from(format!("{}/target/fuzz-gen/x86_64-unknown-linux-gnu/release/generated", verif_dir()))
 }
 
 fn build_fuzz_binary() -> Result<(), String> {
     let out = Command::new("cargo")
-        .current_dir(format!("{VERIF_DIR}/harness"))
+        .current_dir(format!("{}/harness", verif_dir()))
         .env("RUSTUP_TOOLCHAIN", "nightly")
         .env("CARGO_NET_OFFLINE", "true")
-        .args(["fuzz", "build", "-s", "none", "--fuzz-dir", &format!("{VERIF_DIR}/fuzz"), "--target-dir", &format!("{VERIF_DIR}/target/fuzz-gen"), "generated"])
+        .args(["fuzz", "build", "-s", "none", "--fuzz-dir", &format!("{}/fuzz", verif_dir()), "--target-dir", &format!("{}/target/fuzz-gen", verif_dir()), "generated"])
         .output()
         .map_err(|e| format!("cargo fuzz: {e}"))?;
     if !out.status.success() || !fuzz_binary().exists() {
@@ -261,7 +261,7 @@ pub fn campaign(ctx: &Ctx, name: &str, runs_per_job: u64) -> SubResult {
         eprintln!("coverage-guided campaign for {name} did not run: {e}");
         return res;
     }
-    let work = PathBuf::from(format!("{VERIF_DIR}/target/fuzz-work/gen-{}-{}", name.replace(':', "-"), std::process::id()));
+    let work = PathBuf::from(format!("{}/target/fuzz-work/gen-{}-{}", verif_dir(), name.replace(':', "-"), std::process::id()));
     let corpus = work.join("corpus");
     let artifacts = work.join("artifacts");
     let _ = std::fs::remove_dir_all(&work);
